@@ -161,7 +161,9 @@ def t_cleanup_real(ctx):
     N = int(ctx.int('N', 1, K))
     # restarted: completed (signal set) on one bus, then in flight again on another (forwarding / re-dispatch of the same object);
     # waiting_children: all handlers returned but a child event is still pending — both are in flight, not completed
-    KINDS = tuple(ctx.cfg.get('kinds') or ('pending', 'started', 'completed', 'completed_nohandlers', 'restarted', 'waiting_children'))
+    # chain_top / chain_mid come as a pair of history entries: a grandparent whose handlers returned and whose only child (also in the
+    # history, handlers returned too) is waiting for a grandchild that is still pending — both are in flight
+    KINDS = tuple(ctx.cfg.get('kinds') or ('pending', 'started', 'completed', 'completed_nohandlers', 'restarted', 'waiting_children', 'chain'))
     kinds = [ctx.pick(f's{i}', KINDS) for i in range(k)]
     perms = list(itertools.permutations(range(k)))
     pi = int(ctx.int('perm', 0, max(0, len(perms) - 1)))
@@ -180,6 +182,7 @@ def t_cleanup_real(ctx):
             return None
         bus2 = env.EventBus(name='K2')
         objs = {}
+        extra = {}
         for i in range(k):
             e = C(event_created_at=base + datetime.timedelta(seconds=int(order[i])))
             if kinds[i] == 'started':
@@ -200,20 +203,36 @@ def t_cleanup_real(ctx):
                 r = e.event_result_update(handler=h, eventbus=bus, status='started')
                 r.event_children.append(C(event_parent_id=e.event_id))
                 e.event_result_update(handler=h, eventbus=bus, result='x')
+            elif kinds[i] == 'chain':
+                # e = grandparent (in the history, visited first); mid = its child (also in the history, a little younger)
+                mid = C(event_parent_id=e.event_id, event_created_at=base + datetime.timedelta(seconds=int(order[i]), milliseconds=500))
+                r = e.event_result_update(handler=h, eventbus=bus, status='started')
+                r.event_children.append(mid)
+                e.event_result_update(handler=h, eventbus=bus, result='x')
+                rm = mid.event_result_update(handler=h, eventbus=bus, status='started')
+                rm.event_children.append(C(event_parent_id=mid.event_id))
+                mid.event_result_update(handler=h, eventbus=bus, result='x')
+                extra[mid.event_id] = mid
             objs[e.event_id] = e
+            for mid_id, mid in list(extra.items()):
+                if mid.event_parent_id == e.event_id:
+                    objs[mid_id] = mid       # right behind its parent in the history
         st0 = {eid: e.event_status for eid, e in objs.items()}
         bus.event_history = dict(objs)
         out['removed_n'] = bus.cleanup_event_history()
         out['kept'] = list(bus.event_history)
         out['objs'] = objs
         out['st0'] = st0
-        out['results_intact'] = all(len(e.event_results) == {'pending': 0, 'completed_nohandlers': 0, 'restarted': 2}.get(kinds[i], 1) for i, e in enumerate(objs.values()))
-        out['kind_of'] = {e.event_id: kinds[i] for i, e in enumerate(objs.values())}
+        tops = [e for e in objs.values() if e.event_id not in extra]
+        out['results_intact'] = all(len(e.event_results) == {'pending': 0, 'completed_nohandlers': 0, 'restarted': 2}.get(kinds[i], 1) for i, e in enumerate(tops))
+        out['kind_of'] = {e.event_id: kinds[i] for i, e in enumerate(tops)}
+        out['kind_of'].update({mid_id: 'chain_mid' for mid_id in extra})
+        out['n_entries'] = len(objs)
 
     ctx.run(main())
     objs, kept, st0 = out['objs'], out['kept'], out['st0']
-    ctx.check('C13.bound', len(kept) == min(k, N), kept=len(kept), N=N, k=k)
-    rank_of_kind = {'completed': 0, 'completed_nohandlers': 0, 'started': 1, 'restarted': 1, 'waiting_children': 1, 'pending': 2}
+    ctx.check('C13.bound', len(kept) == min(out['n_entries'], N), kept=len(kept), N=N, k=out['n_entries'])
+    rank_of_kind = {'completed': 0, 'completed_nohandlers': 0, 'started': 1, 'restarted': 1, 'waiting_children': 1, 'chain': 1, 'chain_mid': 1, 'pending': 2}
     rk = {eid: rank_of_kind[kd] for eid, kd in out['kind_of'].items()}
     bad = []
     for r in objs:
@@ -226,7 +245,7 @@ def t_cleanup_real(ctx):
     ctx.check('C13.order', not bad, bad=bad[:3], kinds=kinds)
     ctx.check('C13.eviction_leaves_events_intact', bool(out['results_intact']) and all(objs[e].event_status == st0[e] for e in objs),
               why='eviction changed an event (its results / status)')
-    if len(kept) < k:
+    if len(kept) < out['n_entries']:
         ctx.witness('evicted')
     ctx.rec('K', kinds=kinds, N=N)
 
